@@ -94,6 +94,7 @@ type Config struct {
 	MaxDecisions int
 	BatchMax     int
 	TimeBudget   time.Duration
+	Deadline     time.Time
 }
 
 type Result struct {
@@ -763,6 +764,10 @@ func (ex *Exec) Explore(fn *ssa.Function, prefix []Decision, rootAux []AuxRec, f
 		res.Instrs += ex.instrs
 		if len(res.Samples) < 8 && end != "infeasible" && end != "frontier" {
 			res.Samples = append(res.Samples, PathSample{Decisions: ex.decisionString(), End: end})
+		}
+		if !ex.cfg.Deadline.IsZero() && time.Now().After(ex.cfg.Deadline) {
+			res.Inconclusive = append(res.Inconclusive, fmt.Sprintf("run deadline reached after %d paths of this job (exploration incomplete)", res.Paths))
+			break
 		}
 		if ex.cfg.TimeBudget > 0 && time.Since(t0) > ex.cfg.TimeBudget {
 			res.Inconclusive = append(res.Inconclusive, fmt.Sprintf("time budget of %s for one exploration job exceeded after %d paths (exploration incomplete)", ex.cfg.TimeBudget, res.Paths))
